@@ -1,8 +1,12 @@
 (* C06 model runner for the owner-only gates:
      gate <deltopic|public|trusted|defacs|defacso|tags> <loaded> <attached> <owner_c> <owner_s> <subscribed> <root>
+   -> all|own|none <code>
+   and for {del what=topic} with the population of the topic (Sys/OwnerGateC06x.v):
+     delgate <grp|p2p> <loaded> <owner_c> <count_c> <subscribed> <owner_s> <count_s>
    -> all|own|none <code> *)
 open Conv
 open OwnerGate
+open OwnerGateC06x
 let b s = s = "1"
 let handle (w : string list) : string =
   match w with
@@ -19,4 +23,11 @@ let handle (w : string list) : string =
         | GAll c -> "all " ^ string_of_z c
         | GOwn c -> "own " ^ string_of_z c
         | GNone c -> "none " ^ string_of_z c))
+  | ["delgate"; cat; l; oc; cc; sb; os; cs] ->
+    let r = { dx_p2p = (cat = "p2p"); dx_loaded = b l; dx_owner_c = b oc; dx_count_c = n_of_string cc;
+              dx_subscribed = b sb; dx_owner_s = b os; dx_count_s = n_of_string cs } in
+    (match gate_del_c06x r with
+     | GAll c -> "all " ^ string_of_z c
+     | GOwn c -> "own " ^ string_of_z c
+     | GNone c -> "none " ^ string_of_z c)
   | _ -> "?"
